@@ -57,6 +57,8 @@ class DW:
         for k, idx in enumerate(itertools.product(*[range(s) for s in shape])):
             if zeros and len(data) and k % 4 == 1:
                 data.append(rat(0))
+            elif zeros and k == 2:
+                data.append(Rat.sym("eps", "pos"))       # a tiny entry (smaller than every tolerance) - but not a zero
             else:
                 data.append(Rat.sym(f"{name}_" + "_".join(map(str, idx)) if idx else name))
         return SArr(shape, data)
@@ -310,7 +312,7 @@ def case_df_history(prog, letters):
 FAULTS = ["none", "drop-first", "drop-middle", "drop-last", "duplicate", "unknown-item", "nan-value", "missing-column", "missing-single-item-column",
           "two-odd-value-columns", "unknown+drop", "duplicate+drop", "nan+unknown", "duplicate-after-type-conversion",
           "unknown-item-first-dimension", "unknown-item-early", "unknown-item-in-single-item-column",
-          "repeated-row-labels", "nan+repeated-row-labels"]
+          "repeated-row-labels", "nan+repeated-row-labels", "label-as-text-in-untyped-dimension"]
 
 
 def long_frame(dw, arr, letters):
@@ -398,6 +400,16 @@ def apply_fault(dw, df: PD.Frame, letters, fault):
             rows = [r[:j] + r[j + 1:] for r in rows]
             ci = [cols.index(n) for n in names if n in cols]
             vi = cols.index("value")
+        elif f == "label-as-text-in-untyped-dimension":
+            # a dimension WITHOUT declared dtype holding integer items: the text "7" is not its item 7
+            cand = [i for i, l in zip(ci, letters) if DIMS[l][2] is None and all(isinstance(x, int) for x in DIMS[l][1])]
+            if not cand:
+                return None
+            k = len(rows) - 1
+            removed.append(key(rows[k]))
+            rows[k] = list(rows[k])
+            rows[k][cand[0]] = str(rows[k][cand[0]])
+            note["extra"] = True
         elif f == "repeated-row-labels":
             note["row_labels"] = [(i % 2,) for i in range(len(rows))]     # as after pd.concat without ignore_index: labels 0,1,0,1,...
         elif f == "two-odd-value-columns":
@@ -422,7 +434,7 @@ def expected_outcome(fault, note, removed, nan_keys, allow_missing, allow_extra)
 
 def case_faults(prog, letters, target="from_df"):
     out = []
-    for fault, header in itertools.product(FAULTS, ("name", "letter")):
+    for fault, header in itertools.product(FAULTS, ("name", "letter", "index")):
         for am, ae in itertools.product((False, True), repeat=2):
             dw = DW(prog)
             it = dw.it
@@ -435,6 +447,12 @@ def case_faults(prog, letters, target="from_df"):
             frame, removed, nan_keys, note = r
             if header == "letter":
                 frame = frame.rename(columns={DIMS[l][0]: l for l in letters})
+            if header == "index":
+                # the layout written by to_df(): the dimension columns form the (Multi)Index, one value column remains
+                names_ = [DIMS[l][0] for l in letters]
+                if note.get("missing_column") or note.get("row_labels") or any(n_ not in frame.columns.labels for n_ in names_) or len(letters) < 2:
+                    continue
+                frame = frame.set_index(names_)
             exp = expected_outcome(fault, note, removed, nan_keys, am, ae)
             inp = {"dims": list(letters), "fault": fault, "allow_missing_values": am, "allow_extra_values": ae, "via": target, "dimension_columns_headed_by": header}
             kw = {}
